@@ -7,6 +7,7 @@ import (
 	"math/rand"
 	"os"
 	"path/filepath"
+	"runtime"
 	"runtime/debug"
 	"sort"
 	"strings"
@@ -97,13 +98,29 @@ func runSpecOnce(docText []byte, cont bool, in *interner, reg strfmt.Registry) s
 	return runSpec(docText, cont, in, reg, false)
 }
 
+// formatBearing: members the Swagger 2.0 schema constrains by a format only
+func formatBearing(p gen.Ptr) bool {
+	if len(p) == 0 {
+		return false
+	}
+	k, _ := p[len(p)-1].(string)
+	return k == "url" || k == "email" || k == "authorizationUrl" || k == "tokenUrl"
+}
+
 // primerDoc is an accepted document unlike every generated one: a validator that has just validated it must not let
 // anything of it show in the next validation
 const primerDoc = `{"swagger":"2.0","info":{"title":"primer","version":"1"},"paths":{"/primer/{pid}":{"get":{"operationId":"primerGet","parameters":[{"name":"pid","in":"path","required":true,"type":"string"},{"name":"n","in":"query","type":"integer","default":3}],"responses":{"200":{"description":"ok","schema":{"$ref":"#/definitions/Primer"},"examples":{"application/json":{"p":"x"}}}}}}},"definitions":{"Primer":{"type":"object","properties":{"p":{"type":"string","default":"d"}}}}}`
 
-// primed validates the primer with a new validator and returns that validator
+// further primers: documents that drive a validator into its less common states (a circular ancestry was found; the
+// document could not be expanded)
+var primerDocs = []string{primerDoc,
+	`{"swagger":"2.0","info":{"title":"primer2","version":"1"},"paths":{"/c":{"get":{"operationId":"pc","responses":{"200":{"description":"ok","schema":{"$ref":"#/definitions/Self"}}}}}},"definitions":{"Self":{"allOf":[{"$ref":"#/definitions/Self"},{"type":"object"}]}}}`,
+	`{"swagger":"2.0","info":{"title":"primer3","version":"1"},"paths":{"/r":{"get":{"operationId":"pr","parameters":[{"$ref":"nofile"}],"responses":{"200":{"description":"ok"}}}}}}`,
+}
+
+// primed validates a primer with a new validator and returns that validator
 func primed(cont bool, reg strfmt.Registry) *validate.SpecValidator {
-	d, err := loads.Analyzed(json.RawMessage(primerDoc), "")
+	d, err := loads.Analyzed(json.RawMessage(primerDocs[usePrimedKind%len(primerDocs)]), "")
 	if err != nil {
 		return nil
 	}
@@ -114,9 +131,34 @@ func primed(cont bool, reg strfmt.Registry) *validate.SpecValidator {
 }
 
 var usePrimed bool
+var usePrimedKind int
+
+// interleaved: a rejected document whose default check meets an unresolvable $ref lazily, inside a child validator (the
+// library recovers that panic itself with continue-on-errors). It is validated, unrecorded, before every fifth recorded
+// validation: whatever it leaves behind in the pools is what the recorded validation borrows.
+const interleavedDoc = `{"swagger":"2.0","info":{"title":"i","version":"1"},"paths":{"/n":{"post":{"operationId":"n","parameters":[{"name":"body","in":"body","schema":{"type":"object","default":{"x":{"y":1}},"properties":{"x":{"type":"object","properties":{"y":{"$ref":"#/definitions/Nowhere"}}}}}}],"responses":{"200":{"description":"ok","schema":{"type":"object","example":{"k":[1]},"properties":{"k":{"type":"array","items":{"$ref":"#/definitions/NowhereEither"}}}}}}}}},"definitions":{"A":{"type":"object","properties":{"p":{"$ref":"#/definitions/missing"}},"default":{"p":1}},"B":{"type":"object","properties":{"q":{"type":"object","properties":{"r":{"$ref":"#/definitions/missing2"}}}},"example":{"q":{"r":1}}}}}`
+
+var runSpecCalls int
+
+func interleave(reg strfmt.Registry) {
+	runSpecCalls++
+	if runSpecCalls%5 != 0 {
+		return
+	}
+	_, _ = guarded(60*time.Second, func() {
+		d, err := loads.Analyzed(json.RawMessage(interleavedDoc), "")
+		if err != nil {
+			return
+		}
+		sv := validate.NewSpecValidator(d.Schema(), reg)
+		sv.SetContinueOnErrors(true)
+		_, _ = sv.Validate(d)
+	})
+}
 
 func runSpec(docText []byte, cont bool, in *interner, reg strfmt.Registry, reuse bool) specRun {
 	var res specRun
+	interleave(reg)
 	phaseMu.Lock()
 	phaseLog = nil
 	phaseMu.Unlock()
@@ -281,6 +323,10 @@ func driveSpec(args []string) error {
 	// process. Protocol: the document and mode being validated are noted in current.txt first; a hang ends the process at once
 	// (exit 5) and a fatal error ends it anyway; the caller starts the run again with that validation listed in -crashed.
 	debug.SetMaxStack(192 << 20)
+	// one P and no automatic collection: what a validation leaves in the sync.Pools (for instance after a panic that the
+	// library recovered itself) is what the next validation of the run borrows; memory is reclaimed every few documents
+	runtime.GOMAXPROCS(1)
+	debug.SetGCPercent(-1)
 	crashedHow := map[string]string{}
 	for _, c := range strings.Split(*crashed, ",") {
 		if parts := strings.Split(c, ":"); len(parts) == 3 {
@@ -329,7 +375,7 @@ func driveSpec(args []string) error {
 			// sampled tiers always keep the rare edits that only apply at a few pointers (next to an existing $ref)
 			var always, rest []gen.Edit
 			for _, e := range edits {
-				if e.Kind == "ref-xsibling" || e.Kind == "name-dotted" {
+				if e.Kind == "ref-xsibling" || e.Kind == "name-dotted" || (e.Kind == "blank" && formatBearing(e.At)) {
 					always = append(always, e)
 				} else {
 					rest = append(rest, e)
@@ -370,6 +416,9 @@ func driveSpec(args []string) error {
 	runs, loaded := 0, 0
 	outcomes := map[string]int{}
 	for di, d := range docs {
+		if di%24 == 23 {
+			runtime.GC()
+		}
 		if sn > 1 && di%sn != sk {
 			continue
 		}
@@ -410,6 +459,10 @@ func driveSpec(args []string) error {
 				// with repetitions, the last one goes through a validator instance reused across documents
 				// ... and the one before through a validator that has just validated an unrelated accepted document
 				usePrimed = *repeat > 2 && rep == *repeat-2
+				usePrimedKind = 0
+				if *repeat > 3 && rep == *repeat-3 {
+					usePrimed, usePrimedKind = true, 1+di%2
+				}
 				res := runSpec(d.text, cont, in, reg, *repeat > 1 && rep == *repeat-1)
 				usePrimed = false
 				if res.out == "loaderr" {
